@@ -350,3 +350,7 @@ def c19_attached_after_close(rp):           # fixed fb5761c
 
 def c20_socks_eof_before_request(rp):       # found in round 3; fix proposed as /var/tmp/c20/fix_6_socks_eof_before_request.diff
     return rp.get('kind') == 'socks_eof_before_request'
+
+
+def c13_symlink_target_lstat_outside(rp):    # fixed 534f324
+    return rp.get('kind') == 'e2e_chroot' and rp.get('op') == 'symlink-old' and rp.get('event') in ('os.lstat', 'os.readlink', 'os.stat')
